@@ -9,7 +9,7 @@
 From Coq Require Import String ZArith NArith List Bool Reals PrimFloat.
 Require Import PV.Base.Val PV.Model.Rdd PV.Model.RddLib.
 Require Import PV.Base.Num PV.Base.NumR.
-Require Import PV.Proofs.Rdd PV.Proofs.RddTr PV.Proofs.RddCount PV.Proofs.RddAct PV.Proofs.RddFold PV.Proofs.RddLib PV.Proofs.RddMean PV.Proofs.RddObserve.
+Require Import PV.Proofs.Rdd PV.Proofs.RddTr PV.Proofs.RddCount PV.Proofs.RddAct PV.Proofs.RddFold PV.Proofs.RddLib PV.Proofs.RddMean PV.Proofs.RddObserve PV.Proofs.RddReduce.
 Import ListNotations.
 Open Scope Z_scope.
 
@@ -30,6 +30,10 @@ Theorem C01_glom_law : forall ps : parts,
   concat (map (fun v => match v with VList l => l | _ => [] end) (concat (map (fun p => [VList p]) ps))) = concat ps.
 Proof. exact glom_law. Qed.
 
+(* glom followed by flatMap(lambda x: x) restores the dataset partition by partition *)
+Theorem C01_glom_unglom : forall ps : parts, bind (apply_tr TGlom ps) (apply_tr (TFlatMap g_iter)) = Ok ps.
+Proof. exact glom_unglom. Qed.
+
 (* ---- every action except mean (below): the result on the partitions is the plain-list result on the
    flat content.  [act_ok]: reduce needs an associative operator with one exception class, fold/aggregate need Spark's contract
    [agg_hom], take/top/takeOrdered a non-negative count, min/max a non-empty dataset, countByValue
@@ -44,6 +48,11 @@ Proof. exact act_flat. Qed.
 Theorem C01_reduce_flat : forall (f : op2) (ps : parts), assoc_m f -> single_err f ->
   run_act (AReduce f) ps = run_list (AReduce f) (concat ps).
 Proof. exact reduce_flat. Qed.
+
+(* value form, associativity only: the dataset yields a value exactly when the plain left fold does, the same one *)
+Theorem C01_reduce_value : forall (f : op2) (ps : parts) (v : val), assoc_m f ->
+  (run_act (AReduce f) ps = Ok v <-> run_list (AReduce f) (concat ps) = Ok v).
+Proof. exact reduce_value. Qed.
 
 Theorem C01_aggregate_flat : forall (z : val) (seq comb : op2) (ps : parts), agg_hom z seq comb ->
   run_act (AAggregate z seq comb) ps = run_list (AAggregate z seq comb) (concat ps).
